@@ -248,10 +248,26 @@ func registerIntrinsics(p *Program) {
 	}
 	I["(*sync.Once).Do"] = func(e *Exec, fr *frame, args []Value) Value {
 		p := args[0].(Pointer)
-		// use the first field's storage as the done flag (only ever touched here)
-		flag := p.loc.kids[0]
-		for flag.kids != nil {
-			flag = flag.kids[0]
+		// use the first integer leaf of the struct as the done flag (only ever touched here)
+		var flag *Loc
+		var findLeaf func(l *Loc)
+		findLeaf = func(l *Loc) {
+			if flag != nil {
+				return
+			}
+			if l.kids != nil {
+				for _, k := range l.kids {
+					findLeaf(k)
+				}
+				return
+			}
+			if _, _, ok := intWidth(l.typ); ok {
+				flag = l
+			}
+		}
+		findLeaf(p.loc)
+		if flag == nil {
+			e.unsupported("sync.Once layout")
 		}
 		if t, ok := flag.val.(*Term); ok && t.IsConst() && t.Val != 0 {
 			return nil
